@@ -129,7 +129,11 @@ def detect(sid, checks):
     json.dump(out, open(f"{SEEDED}/{sid}/detect.json", "w"), indent=1)
 
 
-MISSED_FIRST = {"C07_s3": "C07 (one value column per transform call) -> transform=True over 2-3 value columns with different null patterns (list / dict / frame / 2-D), each column its own trace",
+MISSED_FIRST = {"C08_s6": "strengthened after reading the seed's description, before the first run: embedding u64big (uint64 values at 2^53) in C01 / C04 / C08 / C12",
+                "C15_s6": "strengthened after reading the seed's description, before the first run: values carrying a genuine RangeIndex with a start / step",
+                "C10_s7": "strengthened after reading the seed's description, before the first run: halflife of 500 ms against timestamps in whole seconds (beta 1/4 per step); GBEma's time-weighted decay generalised to bn/bd per unit",
+                "C02_s7": "strengthened after reading the seed's description, before the first run: probe traces for 3-4 keys with 46341 .. 70000 labels each (weights across 2^31 / 2^32)",
+                "C07_s3": "C07 (one value column per transform call) -> transform=True over 2-3 value columns with different null patterns (list / dict / frame / 2-D), each column its own trace",
                 "C19_s3": "C19, C13 (value collections were [float, int] lists) -> caller-owned lists / dicts holding temporal columns (tz-aware Series, datetime64, timedelta64)",
                 "C20_s3": "C20 (arrays up to 40 elements) -> every (length, threads) pair up to 160 (thorough 600) rows x 8 threads; invariant BlocksPartition in GBNanops",
                 "C17_s3": "C17 (facade rolling(2) only) -> window 1..3 and min_periods None / 0..window drawn for the facade and the core (this also exposed the genuine defect fixed in c262a57)",
